@@ -4,33 +4,18 @@ use crate::support::*;
 use core::cmp::Ordering;
 pub mod ty {
     #![deny(warnings)]
-    #![allow(dead_code, unused_imports)]
+    #![allow(dead_code, unused_imports, non_snake_case)]
     use crate::support::{A, B, C, Good, Bad, m_eq, m_cmp, m_pcmp, m_hash, m_fmt, m_clone, m_clone_c, m_into, g_eq, g_cmp, g_pcmp, g_hash, g_fmt};
     use educe::Educe;
-
-    // names at the derive site that shadow everything the generated code might be tempted to write unqualified
-    #[allow(non_camel_case_types)] pub struct Option; pub struct Result; pub struct Ordering; pub struct Clone; pub struct Copy;
-    pub struct Default; pub struct Debug; pub struct PartialEq; pub struct Eq; pub struct PartialOrd; pub struct Ord; pub struct Hash;
-    pub struct Hasher; pub struct Into; pub struct From; pub struct Deref; pub struct DerefMut; pub struct Formatter; pub struct String;
-    pub struct Vec; pub struct Box; pub struct PhantomData; pub struct Sized; pub struct Send; pub struct Iterator; pub struct Self_;
-    #[allow(non_snake_case)] pub fn Some() {} #[allow(non_snake_case)] pub fn None() {} #[allow(non_snake_case)] pub fn Ok() {} #[allow(non_snake_case)] pub fn Err() {}
-    pub fn drop() {} pub mod core {} pub mod std {} pub mod alloc {} pub mod fmt {} pub mod cmp {} pub mod hash {} pub mod clone {} pub mod marker {}
-    #[allow(unused_macros)] macro_rules! stringify { ($($t:tt)*) => { "SHADOWED" } }
-    #[allow(unused_macros)] macro_rules! unreachable { ($($t:tt)*) => { () } }
-    #[allow(unused_macros)] macro_rules! panic { ($($t:tt)*) => { () } }
-    #[allow(unused_macros)] macro_rules! matches { ($($t:tt)*) => { true } }
-    #[allow(unused_macros)] macro_rules! write { ($($t:tt)*) => { () } }
-    #[allow(unused_macros)] macro_rules! format_args { ($($t:tt)*) => { () } }
-    #[allow(unused_macros)] macro_rules! assert { ($($t:tt)*) => { () } }
 #[derive(Educe)]
-#[repr(i64)]
-#[educe(PartialOrd, Eq, PartialEq, Ord)]
-pub enum T { Zed { #[educe(Ord(rank = "4"))] f: A<0>, #[educe(Ord(method = m_cmp, rank = -1))] b: A<1> } = 3, Unit(A<0>) }
+#[educe(Ord, Eq, PartialOrd, PartialEq)]
+#[educe(Debug)]
+pub struct T { #[educe(Debug = false, PartialOrd(rank = "-6"))] pub size: A<0>, #[educe(PartialOrd(ignore(false), rank("-5")))] pub other: A<1>, #[educe(PartialOrd(ignore = false))] pub a: A<0>, #[educe(PartialOrd(rank = -2))] pub r#type: A<3> }
 }
 pub use ty::T;
 
-pub fn values() -> Vec<T> { vec![T::Zed { f: A(0), b: A(0) }, T::Zed { f: A(0), b: A(1) }, T::Zed { f: A(0), b: A(7) }, T::Zed { f: A(1), b: A(0) }, T::Zed { f: A(1), b: A(1) }, T::Zed { f: A(1), b: A(7) }, T::Zed { f: A(7), b: A(0) }, T::Zed { f: A(7), b: A(1) }, T::Zed { f: A(7), b: A(7) }, T::Unit(A(0)), T::Unit(A(1)), T::Unit(A(7))] }
-pub fn show(x: &T) -> String { #[allow(unused_variables)] match x { T::Zed { f: p0, b: p1 } => format!("Zed({},{})", sv(p0), sv(p1)), T::Unit(p0) => format!("Unit({})", sv(p0)) } }
-pub fn o_disc(x: &T) -> i128 { match x { T::Zed { f: _, b: _ } => 3, T::Unit(_) => 4 } }
-pub fn o_cmp(a: &T, b: &T) -> Ordering { match (a, b) { (T::Zed { f: a0, b: a1 }, T::Zed { f: b0, b: b1 }) => { let c = m_cmp(a1, b1); if c != Ordering::Equal { return c; } let c = ::core::cmp::Ord::cmp(a0, b0); if c != Ordering::Equal { return c; } Ordering::Equal }, (T::Unit(a0), T::Unit(b0)) => { let c = ::core::cmp::Ord::cmp(a0, b0); if c != Ordering::Equal { return c; } Ordering::Equal }, _ => o_disc(a).cmp(&o_disc(b)) } }
+pub fn values() -> Vec<T> { vec![T { size: A(0), other: A(0), a: A(0), r#type: A(7) }, T { size: A(0), other: A(0), a: A(7), r#type: A(7) }, T { size: A(7), other: A(0), a: A(1), r#type: A(0) }, T { size: A(7), other: A(0), a: A(1), r#type: A(7) }, T { size: A(0), other: A(7), a: A(7), r#type: A(1) }, T { size: A(7), other: A(0), a: A(0), r#type: A(1) }, T { size: A(7), other: A(1), a: A(1), r#type: A(7) }, T { size: A(1), other: A(7), a: A(7), r#type: A(0) }, T { size: A(7), other: A(7), a: A(7), r#type: A(7) }, T { size: A(1), other: A(0), a: A(1), r#type: A(1) }, T { size: A(1), other: A(1), a: A(1), r#type: A(7) }, T { size: A(1), other: A(7), a: A(0), r#type: A(7) }, T { size: A(1), other: A(0), a: A(1), r#type: A(0) }, T { size: A(0), other: A(7), a: A(0), r#type: A(0) }, T { size: A(0), other: A(1), a: A(0), r#type: A(7) }, T { size: A(0), other: A(7), a: A(1), r#type: A(7) }, T { size: A(0), other: A(0), a: A(0), r#type: A(1) }, T { size: A(0), other: A(0), a: A(1), r#type: A(7) }, T { size: A(1), other: A(0), a: A(0), r#type: A(7) }, T { size: A(7), other: A(7), a: A(1), r#type: A(7) }, T { size: A(0), other: A(1), a: A(1), r#type: A(0) }, T { size: A(7), other: A(1), a: A(7), r#type: A(1) }, T { size: A(1), other: A(1), a: A(1), r#type: A(1) }, T { size: A(1), other: A(1), a: A(0), r#type: A(0) }, T { size: A(7), other: A(7), a: A(0), r#type: A(7) }, T { size: A(1), other: A(0), a: A(7), r#type: A(1) }, T { size: A(1), other: A(1), a: A(1), r#type: A(0) }, T { size: A(7), other: A(0), a: A(7), r#type: A(1) }, T { size: A(7), other: A(0), a: A(7), r#type: A(0) }, T { size: A(7), other: A(7), a: A(0), r#type: A(1) }, T { size: A(0), other: A(1), a: A(0), r#type: A(1) }, T { size: A(0), other: A(7), a: A(1), r#type: A(0) }, T { size: A(0), other: A(0), a: A(7), r#type: A(0) }, T { size: A(7), other: A(7), a: A(7), r#type: A(1) }, T { size: A(7), other: A(7), a: A(7), r#type: A(0) }, T { size: A(1), other: A(1), a: A(0), r#type: A(7) }] }
+pub fn show(x: &T) -> String { #[allow(unused_variables)] match x { T { size: p0, other: p1, a: p2, r#type: p3 } => format!("T({},{},{},{})", sv(p0), sv(p1), sv(p2), sv(p3)) } }
+pub fn o_disc(x: &T) -> i128 { match x { T { size: _, other: _, a: _, r#type: _ } => 0 } }
+pub fn o_cmp(a: &T, b: &T) -> Ordering { match (a, b) { (T { size: a0, other: a1, a: a2, r#type: a3 }, T { size: b0, other: b1, a: b2, r#type: b3 }) => { let c = ::core::cmp::Ord::cmp(a2, b2); if c != Ordering::Equal { return c; } let c = ::core::cmp::Ord::cmp(a0, b0); if c != Ordering::Equal { return c; } let c = ::core::cmp::Ord::cmp(a1, b1); if c != Ordering::Equal { return c; } let c = ::core::cmp::Ord::cmp(a3, b3); if c != Ordering::Equal { return c; } Ordering::Equal } } }
 pub fn run(out: &mut Out) { let vs = values(); for (i, a) in vs.iter().enumerate() { for (j, b) in vs.iter().enumerate() { let e = o_cmp(a, b); let g = ::core::cmp::Ord::cmp(a, b); out.check(g == e, "ord_6", "cmp", || format!("cmp({}, {}) = {:?} expected {:?}", show(a), show(b), g, e)); let g2 = ::core::cmp::PartialOrd::partial_cmp(a, b); out.check(g2 == Some(e), "ord_6", "partial_is_some_cmp", || format!("partial_cmp({}, {}) = {:?} expected Some({:?})", show(a), show(b), g2, e)); } } }
